@@ -972,17 +972,26 @@ def unbranch(d):
 
 
 def simplify(d):
-    """post-pass normalisations on a finished DAG"""
+    """post-pass normalisations on a finished DAG (bottom-up, each node rewritten to a fixpoint)"""
     if not isinstance(d, tuple) or not d:
         return d
     if d[0] in ('param', 'const', 'fn', 'undef', 'loop'):
         return d
     t = tuple(simplify(x) if isinstance(x, tuple) else x for x in d)
-    if t[0] == 'unwrap' and isinstance(t[1], tuple) and t[1][0] == 'branch':
+    for _ in range(8):
+        n = _rewrite(t)
+        if n is t or n == t:
+            break
+        t = n
+    return t
+
+
+def _rewrite(t):
+    if t[0] == 'unwrap' and isinstance(t[1], tuple) and t[1] and t[1][0] == 'branch':
         return ('unwrap', t[1][1])
-    if t[0] == 'unwrap_err' and isinstance(t[1], tuple) and t[1][0] == 'branch':
+    if t[0] == 'unwrap_err' and isinstance(t[1], tuple) and t[1] and t[1][0] == 'branch':
         return ('unwrap_err', t[1][1])
-    if t[0] == 'unwrap' and isinstance(t[1], tuple) and t[1][0] == 'call' and t[1][1].endswith('::next') and len(t[1]) == 3:
+    if t[0] == 'unwrap' and isinstance(t[1], tuple) and t[1] and t[1][0] == 'call' and t[1][1].endswith('::next') and len(t[1]) == 3:
         src = t[1][2]
         if src[0] == 'phi':
             srcs = [a for a in src[1:] if a[0] != 'loop']
@@ -996,20 +1005,25 @@ def simplify(d):
         if src[0] == 'call' and src[1] == 'RangeInclusive::new' and len(src) == 4:
             return ('itervar', ('rangeincl', src[2], src[3]))
         return ('itervar', src)
-    if t[0] == 'veclit' and isinstance(t[1], tuple) and t[1][0] == 'update':
+    if t[0] == 'veclit' and isinstance(t[1], tuple) and t[1] and t[1][0] == 'update':
         # Box<MaybeUninit<[T;N]>> written once with an array aggregate
         return ('veclit', t[1][3])
-    if t[0] == 'agg' and len(t) > 1 and isinstance(t[1], str):
-        pass
     return t
 
 
 def subterms(d):
+    if not d:
+        return
     yield d
-    if isinstance(d, tuple):
+    if isinstance(d, tuple) and isinstance(d[0], str):
         for x in d[1:]:
-            if isinstance(x, tuple):
+            if isinstance(x, tuple) and x and isinstance(x[0], str):
                 yield from subterms(x)
+            elif isinstance(x, tuple) and x and isinstance(x[0], tuple):
+                # e.g. (name, dag) pairs of an aggregate / argument tuples of a mut node
+                for y in x:
+                    if isinstance(y, tuple) and y and isinstance(y[0], str):
+                        yield from subterms(y)
 
 
 def leaves(d, acc=None):
